@@ -1,3 +1,4 @@
+import Pocket.Lemmas.Refine2
 import Pocket.Lemmas.StoreCover
 import Pocket.Lemmas.AddrRT
 /-
@@ -211,5 +212,29 @@ theorem address_text_marked (c : List SEv) (req : EventRec) (tags : TagsRec) (st
     (htag : (KEY_A :: (decOf k ++ 58 :: (hexOf pk ++ 58 :: d)) :: rest) ∈ tags) :
     ∃ t, req.createdAt ≤ t ∧ delAddrGet st'.delAddrs (k, pk, normD k d) = some t :=
   accepted_marks_addresses c req tags st st' h hu _ rest k pk d htag (parseAddr_text k pk d hk hpk hb)
+
+/-! ### the property read on the specification (the abstract store of `Spec/AbsStore.lean`, which `full_history_refines` proves
+the concrete model computes for every history) -/
+
+/-- in every state the abstract store reaches, an id named by an accepted deletion is not retrievable, and every
+retrievable event is newer than the deletion time of its address -/
+theorem spec_covered (ops : List Op) (ht : ∀ op ∈ ops, opTimeOk op) (hlen : ops.length < U32MAX) :
+    (∀ id ∈ (ops.foldl absOp {}).delIds, ∀ x ∈ (ops.foldl absOp {}).live, x.id ≠ id) ∧
+    (∀ x ∈ (ops.foldl absOp {}).live, ∀ a t, addrOf x = some a → delAddrGet (ops.foldl absOp {}).delAddrs a = some t → t < x.createdAt) := by
+  have href := full_history_refines ops ht hlen
+  have e0 : Abs.of ({} : Store) = ({} : Abs) := rfl
+  rw [e0] at href
+  rw [← href]
+  have hc : Covered (run {} ops).db.live (run {} ops).db.delIds (run {} ops).db.delAddrs :=
+    Covered_run {} ops ⟨fun id h => by simp at h, fun x h => by simp at h⟩
+  constructor
+  · intro id hid x hx hxid
+    simp only [Abs.of, List.mem_map] at hx hid
+    obtain ⟨x', hx', rfl⟩ := hx
+    exact hc.ids id hid (List.mem_map.2 ⟨x', hx', hxid⟩)
+  · intro x hx a t ha hg
+    simp only [Abs.of, List.mem_map] at hx hg
+    obtain ⟨x', hx', rfl⟩ := hx
+    exact hc.addrs x' hx' a t ha hg
 
 end Pocket.C11
